@@ -1,12 +1,12 @@
 """C08 Fibers make progress; deadlock is reported exactly when nothing can run."""
 from hypothesis import strategies as st
 
-from .. import kpn, kpn_bulk, kpn_many
+from .. import kpn, kpn_bulk, kpn_many, kpn_native
 from .. import worker as W
 from ..oracle import crash_failure
 from ..runner import Failure, Outcome, enc
 from . import kpncommon as K
-from .c07 import labels_of, run_bulk, run_many
+from .c07 import labels_of, run_bulk, run_many, run_native
 
 PROPERTY = "C08"
 LEVEL = "exploration"
@@ -22,7 +22,9 @@ RULE = ("The process networks of C07, half of them unbalanced on purpose (a rece
         "Non-trivial: >= 2 fibers and >= 1 blocked operation in the model; distinct by program text. One case in four is "
         "a Mode M network (several senders and receivers on one channel, see C07): whatever the schedule it can "
         "always finish, so anything but a normal completion with every receiver's log printed is a violation. One case in "
-        "nine is a Mode B network (one channel of large capacity / traffic, see C07): it always finishes.")
+        "nine is a Mode B network (one channel of large capacity / traffic, see C07): it always finishes. One in ten is a "
+        "Mode N network (one channel end inside a callback run by a native, the other in a fiber that calls helpers and "
+        "catches errors, see C07): it always finishes.")
 ASSUMPTIONS = ["liveness is checked in bounded form: termination within 2000x the model's step count",
                "determinacy of single-writer single-reader networks (see C07)"]
 GATES = {"nontrivial": 0.40, "model:complete": 0.10, "model:deadlock": 0.10}
@@ -38,7 +40,7 @@ def cases(tier):
 
 def strategy(hazards):
     pool = [kpn.network(False, hazards), kpn.network(True, hazards), kpn.network(True, hazards), kpn_many.many_network(hazards)]
-    return st.tuples(st.integers(0, 8).flatmap(lambda k: kpn_bulk.bulk_network() if k == 5 else pool[k % 4]), st.integers(0, 7))
+    return st.tuples(st.integers(0, 9).flatmap(lambda k: kpn_bulk.bulk_network() if k == 5 else (kpn_native.native_network(hazards) if k == 2 else pool[k % 4])), st.integers(0, 7))
 
 
 def run_case(case, ctx):
@@ -50,6 +52,8 @@ def run_case(case, ctx):
         return run_many(PROPERTY, case, ctx, kpn_many.progress_failure)
     if net.get("mode") == "B":
         return run_bulk(PROPERTY, case, ctx, True)
+    if net.get("mode") == "N":
+        return run_native(PROPERTY, case, ctx, True)
     fail = None
     runs = 0
     ev = None
